@@ -39,48 +39,6 @@ theorem lowering_depends_on_erased_tree (rv : List Char → Bool) {t₁ t₂ : P
 
 /-! ### (1) clause order -/
 
-/-- the segments of a SELECT token vector behind its head: each a clause keyword (WHERE, GROUP, HAVING, INNER, OUTER,
-LIMIT) followed by tokens none of which is a clause keyword, `;` or `End` — what one gets by cutting the vector in
-front of every clause keyword (stated so that it is decidable on concrete vectors) -/
-def ClauseSegments (segs : List (List PTok)) : Prop :=
-  ∀ seg ∈ segs, seg.head?.map (fun k => decide (ClauseKw k.tok)) = some true ∧ ∀ u ∈ seg.tail, ¬ Boundary u.tok
-
-/-- the head of a SELECT token vector: starts with SELECT, contains no clause keyword, `;` or `End` -/
-def SelectHead (head : List PTok) : Prop :=
-  head.head?.map (·.tok) = some (.kw .select) ∧ ∀ t ∈ head, ¬ Boundary t.tok
-
-/-- the end of a statement's token vector: `End`, or `;` `End` -/
-def IsEnd (e : List PTok) : Prop := e.map (·.tok) = [.eof] ∨ e.map (·.tok) = [.semi, .eof]
-
-instance (segs : List (List PTok)) : Decidable (ClauseSegments segs) := by unfold ClauseSegments; infer_instance
-instance (head : List PTok) : Decidable (SelectHead head) := by unfold SelectHead; infer_instance
-instance (e : List PTok) : Decidable (IsEnd e) := by unfold IsEnd; infer_instance
-
-theorem ClauseSegments.shape {segs : List (List PTok)} (h : ClauseSegments segs) : ∀ seg ∈ segs, SegShape seg := by
-  intro seg hseg
-  obtain ⟨h1, h2⟩ := h seg hseg
-  cases seg with
-  | nil => simp at h1
-  | cons k body =>
-    simp only [List.head?_cons, Option.map_some, Option.some.injEq, decide_eq_true_eq] at h1
-    exact ⟨k, body, rfl, h1, h2⟩
-
-theorem SelectHead.cons {head : List PTok} (h : SelectHead head) : ∃ t ts, head = t :: ts ∧ t.tok = .kw .select := by
-  obtain ⟨h1, _⟩ := h
-  cases head with
-  | nil => simp at h1
-  | cons t ts => exact ⟨t, ts, rfl, by simpa using h1⟩
-
-theorem IsEnd.stmtEnd {e : List PTok} (h : IsEnd e) : StmtEnd e := by
-  rcases h with h | h
-  · match e, h with
-    | [⟨l, _⟩], h => simp only [List.map_cons, List.map_nil, List.cons.injEq, and_true] at h; subst h; exact .eof l
-  · match e, h with
-    | [⟨l, _⟩, ⟨l', _⟩], h =>
-      simp only [List.map_cons, List.map_nil, List.cons.injEq, and_true] at h
-      obtain ⟨rfl, rfl⟩ := h
-      exact .semi l l'
-
 /-- **Clause order does not matter to the parse tree** — `clause_order_invariance_statement` (trees): let
 `head ++ clauses₁ ++ end₁` be a token vector that `Parser::parse` reads as a SELECT tree, `head` without clause
 keyword / `;` / `End`, `clauses₁` cut into clause-shaped segments, `end₁` either `End` or `;` `End`. Then for every
@@ -176,18 +134,6 @@ theorem trailing_semicolon_lowered (rv : List Char → Bool) (pre : List PTok)
     obtain ⟨q', hq', hs⟩ := hts.2 q ht
     exact parseToks_stmt_of_sameTree rv ht hq' (sameUpToLoc_eraseLoc hs) s h
 
-/-- the tokens of a query text in front of `End`: start with SELECT, no `;` among them -/
-def SelectNoSemi (ts : List PTok) : Prop :=
-  ts.head?.map (·.tok) = some (.kw .select) ∧ ∀ t ∈ ts, t.tok ≠ .semi
-
-instance (ts : List PTok) : Decidable (SelectNoSemi ts) := by unfold SelectNoSemi; infer_instance
-
-theorem SelectNoSemi.cons {ts : List PTok} (h : SelectNoSemi ts) : ∃ t rest, ts = t :: rest ∧ t.tok = .kw .select := by
-  obtain ⟨h1, _⟩ := h
-  cases ts with
-  | nil => simp at h1
-  | cons t rest => exact ⟨t, rest, rfl, by simpa using h1⟩
-
 /-- what `tokenize_append_semi` gives, read through `parseText` -/
 theorem parseText_of_semiAppended (o : Lex.Oracles) (rv : List Char → Bool) (q q' : List Char)
     (happ : Lex.SemiAppended (Lex.tokenize o q) (Lex.tokenize o q'))
@@ -258,11 +204,6 @@ theorems about `parse_type` / `parse_regex_mode` (`C20Parse.column_type_case_ins
 `NotDefinedType` quotes `name ++ "[]"…`, which no respelling of `name` commutes with; (b) one respelling for all
 tokens: a text that spells a column `COUNT` and the aggregate `COUNT(…)` and changes the letter case of the second only
 is outside the side condition (`ρ` would have to fix and to change the word `COUNT`). -/
-
-/-- a token vector that starts with SELECT -/
-def SelectVector (toks : List PTok) : Prop := toks.head?.map (·.tok) = some (.kw .select)
-
-instance (toks : List PTok) : Decidable (SelectVector toks) := by unfold SelectVector; infer_instance
 
 /-- **Letter case of names, trees** (`name_case_tree_partial`): respelling every identifier token by `ρ` respells the
 names of the tree; when `ρ` fixes the tree's case-sensitive names, only its call names -/
